@@ -39,6 +39,8 @@ TRUSTED = C06.TRUSTED[:4] + [
     "are only searched for (oracle: wall-clock per call, exception type)",
 ]
 ASSUMPTIONS = ["nesting depth <= 30 and length <= 20 kB (property text)",
+               "float quantities above ~1e290 combined with a unit conversion are not generated: CPython's float*int overflows to inf "
+               "without an exception while Model/Compiler.v's finite number model reports NumericOverflow (accepted out-of-range limitation)",
                "texts containing U+03A3 (context dependent lower-casing) are not generated",
                "syntax error positions are checked for well-formedness only (peggie's furthest-failure bookkeeping is not modelled)"]
 RULE = ("valid multi-block descriptions (rgv.gen.programs, 8% deliberately erroneous: redefinitions, proportions of unknown names); "
@@ -213,7 +215,11 @@ def observe_markdown(md: str) -> Tuple[List[str], str, Any, Optional[str], List[
     else:
         name = type(exc).__name__
         documented = isinstance(exc, (ParseError, RC.RecipeCompileError))
-        if not documented:
+        if not documented and not _marko_converts(md):
+            # outside the property's quantifier: the CommonMark converter cannot convert the document itself
+            tags.append("marko-cannot-convert")
+            term = "SObsOkAny" if not sources else term
+        elif not documented:
             viol = f"compile_markdown raised {name}: {str(exc)[:120]}"
             term = ("(SObsExn EOverflow)" if isinstance(exc, OverflowError) else
                     "(SObsExn EValue)" if isinstance(exc, ValueError) else "(SObsExn EOtherExn)")
@@ -228,6 +234,15 @@ def observe_markdown(md: str) -> Tuple[List[str], str, Any, Optional[str], List[
     return sources, term, js, viol, tags
 
 
+def _marko_converts(md: str) -> bool:
+    import marko
+    try:
+        marko.Markdown()(md)
+        return True
+    except Exception:
+        return False
+
+
 def make_md_case(md: str, kind: str) -> Case:
     sources, term, js, viol, tags = observe_markdown(md)
     return Case(input={"markdown": md, "kind": kind}, coq_in=c.lst([c.string(t) for t in sources], "str"), coq_out=term,
@@ -238,7 +253,8 @@ PROSE = ["Spam and eggs", "Serves {4} or {1/2} of that.", "Mix {1 1/2} cups; it'
          "A [link {2}](http://x/y) here", "Crème fraîche & co", "> quoted {3} text", "* item {0.5}", "1. first", "Some text: with colon",
          "{not closed", "closed} only", "{a\\}b}", "{1/0}", "{00/00}", "{1 /2}", "\\{2\\}", "<b>{2}</b>", "`{2}`", "{}", "{{2}}",
          "# Title for {2}", "## Sub {1/3} heading", "Line with trailing backslash\\", "tab\there", "{2}{3}", "{ 2 }", "{2 eggs}"]
-F3_PROSE = ["![a {2} b](x.png)", "![{1/2}](y.jpg)"]
+F3_PROSE = ["![a {2} b](x.png)", "![{1/2}](y.jpg)", "![x](z.png \"t {3}\") and ![{2} {3/4} c](w.png)"]
+PROSE = PROSE + F3_PROSE     # F3 (fixed in /repo): brace expressions inside image alt text must not raise
 
 
 def gen_markdown(rng: random.Random, f3: bool = False) -> str:
@@ -428,3 +444,18 @@ def known_match(finding: Any, case: Case) -> bool:
         return ("markdown" in inp and "raised AttributeError" in v
                 and re.search(r"!\[[^\]\n]*\{[^\]\n]*\}[^\]\n]*\]\(", inp["markdown"]) is not None)
     return False
+
+
+def search(seed: int, budget_s: float) -> List[Case]:
+    """Bounded hunt for a concrete failing input (used by the driver when a proof / suite is broken)."""
+    t0 = time.time()
+    out: List[Case] = []
+    k = 0
+    while time.time() - t0 < budget_s and k < 40:
+        for batch in CC.pmap(_one, [(seed + 17, 100000 + k * 300 + i, "quick") for i in range(300)]):
+            out.extend(batch)
+        k += 1
+        if any(c.violation and not any(known_match({"matches": m}, c) for m in
+               ("numeric_literal_309_digits", "quantity_comparison_overflow")) for c in out):
+            break
+    return out
